@@ -18,70 +18,111 @@
 (* `ClosesOnAllPaths = FALSE` models an entry point without the finally    *)
 (* (load_path called directly, as found in 4.6.5).                         *)
 (*                                                                         *)
+(* Memory  : a loader reads a count field from the header, compares the    *)
+(*           length it implies with the bytes really present and only then *)
+(*           allocates count * record size.  MemoryProportional: what was  *)
+(*           asked of the allocator is bounded by the input.  `LengthCheck`*)
+(*           = "wrapping" models the comparison done in fixed-width        *)
+(*           arithmetic (binary STL in 4.6.5: uint32 face_count * 50), and *)
+(*           "none" an array sized by a count nothing was compared with    *)
+(*           (glTF accessor without a bufferView); TLC reports both.       *)
+(*                                                                         *)
 (* Part 2 - fault sequences over an abstract file layout (a sequence of    *)
 (* fields: header, counts, records, terminator): truncate, corrupt a field *)
 (* with a value class, swap two chunks, duplicate a chunk, splice foreign  *)
 (* bytes.  TLC enumerates every sequence of at most MaxFaults faults and   *)
 (* emits it; the harness maps it onto the bytes of every seed file.        *)
+(*                                                                         *)
+(* Part 3 - value classes for one numeric field (CountClasses,             *)
+(* RealClasses, StructClasses).  An integer class is symbolic:             *)
+(*   value = (+/-) mul * (base + delta + 2^pow),  base in {0, n}           *)
+(* with n the present value of the field.  The exponents are derived here: *)
+(* a length check `count * size = len` done in w-bit arithmetic is passed  *)
+(* by exactly the counts n + k * 2^(w - v2(size)) (v2 = number of trailing *)
+(* zero bits), so for every width and record size in use the class         *)
+(* n + 2^(w - v2(size)) is emitted, next to the sign and width boundaries. *)
 (***************************************************************************)
 EXTENDS Integers, Sequences, FiniteSets, TLC, Json
 
 CONSTANTS Entries,           \* {"load", "load_mesh", "load_scene", "load_path"}
           ClosesOnAllPaths,  \* TRUE: every entry point closes what it opened
           MaxInput,          \* abstract input length (parser progress measure)
-          NFields, MaxFaults, Classes
+          NFields, MaxFaults, Classes,
+          LengthCheck        \* "exact" | "wrapping" | "none": how the header count is compared with the input
 
-VARIABLES phase, entry, byPath, opened, handle, remaining, outcome, faults
+VARIABLES phase, entry, byPath, opened, handle, remaining, outcome, faults,
+          count,             \* the count field as found in the (possibly corrupted) header
+          alloc,             \* units asked of the allocator so far
+          size               \* records really present in the input (remaining counts down from it)
 
-vars == <<phase, entry, byPath, opened, handle, remaining, outcome, faults>>
+vars == <<phase, entry, byPath, opened, handle, remaining, outcome, faults, count, alloc, size>>
+
+RecSize == 2                 \* model units per record
+Modulus == 8                 \* the fixed-width arithmetic of a "wrapping" length check
+CountMax == 2 * Modulus - 1
 
 Init == /\ phase = "start" /\ entry \in Entries /\ byPath \in BOOLEAN
         /\ opened = FALSE /\ handle = "none" /\ remaining \in 0..MaxInput
         /\ outcome = "none" /\ faults = <<>>
+        /\ count \in 0..CountMax /\ alloc = 0 /\ size = remaining
 
 ParseArgs == /\ phase = "start"
              /\ phase' = "parsed"
              /\ opened' = byPath
              /\ handle' = IF byPath THEN "open" ELSE "none"
-             /\ UNCHANGED <<entry, byPath, remaining, outcome, faults>>
+             /\ UNCHANGED <<entry, byPath, remaining, outcome, faults, count, alloc, size>>
 
 \* unknown file type: NotImplementedError / ValueError before any loader runs
 DispatchFail == /\ phase = "parsed" /\ phase' = "failed"
-                /\ UNCHANGED <<entry, byPath, opened, handle, remaining, outcome, faults>>
-Dispatch == /\ phase = "parsed" /\ phase' = "loading"
-            /\ UNCHANGED <<entry, byPath, opened, handle, remaining, outcome, faults>>
+                /\ UNCHANGED <<entry, byPath, opened, handle, remaining, outcome, faults, count, alloc, size>>
+Dispatch == /\ phase = "parsed" /\ phase' = "header"
+            /\ UNCHANGED <<entry, byPath, opened, handle, remaining, outcome, faults, count, alloc, size>>
+
+\* the header: the length implied by the count field is compared with what is present, then the
+\* arrays sized by the count are allocated
+LengthOK == CASE LengthCheck = "exact"    -> count * RecSize = size * RecSize
+              [] LengthCheck = "wrapping" -> (count * RecSize) % Modulus = (size * RecSize) % Modulus
+              [] OTHER                    -> TRUE
+HeaderOk == /\ phase = "header" /\ LengthOK
+            /\ alloc' = count * RecSize /\ phase' = "loading"
+            /\ UNCHANGED <<entry, byPath, opened, handle, remaining, outcome, faults, count, size>>
+HeaderBad == /\ phase = "header" /\ ~LengthOK /\ phase' = "failed"
+             /\ UNCHANGED <<entry, byPath, opened, handle, remaining, outcome, faults, count, alloc, size>>
 
 \* one iteration of a loader loop: strictly consumes input
 ParseStep == /\ phase = "loading" /\ remaining > 0
              /\ remaining' = remaining - 1
-             /\ UNCHANGED <<phase, entry, byPath, opened, handle, outcome, faults>>
+             /\ UNCHANGED <<phase, entry, byPath, opened, handle, outcome, faults, count, alloc, size>>
 LoaderDone == /\ phase = "loading" /\ remaining = 0 /\ phase' = "loaded"
-              /\ UNCHANGED <<entry, byPath, opened, handle, remaining, outcome, faults>>
-LoaderRaise == /\ phase = "loading" /\ phase' = "failed"
-               /\ UNCHANGED <<entry, byPath, opened, handle, remaining, outcome, faults>>
+              /\ UNCHANGED <<entry, byPath, opened, handle, remaining, outcome, faults, count, alloc, size>>
+LoaderRaise == /\ phase \in {"header", "loading"} /\ phase' = "failed"
+               /\ UNCHANGED <<entry, byPath, opened, handle, remaining, outcome, faults, count, alloc, size>>
 
 \* the finally block (taken on both paths)
 HasFinally == ClosesOnAllPaths \/ entry # "load_path"
 FinallyClose == /\ phase \in {"loaded", "failed"}
                 /\ handle' = IF HasFinally /\ opened THEN "closed" ELSE handle
                 /\ phase' = IF phase = "loaded" THEN "post" ELSE "raising"
-                /\ UNCHANGED <<entry, byPath, opened, remaining, outcome, faults>>
+                /\ UNCHANGED <<entry, byPath, opened, remaining, outcome, faults, count, alloc, size>>
 
 PostOk == /\ phase = "post" /\ phase' = "done" /\ outcome' = "return"
-          /\ UNCHANGED <<entry, byPath, opened, handle, remaining, faults>>
+          /\ UNCHANGED <<entry, byPath, opened, handle, remaining, faults, count, alloc, size>>
 PostRaise == /\ phase = "post" /\ phase' = "done" /\ outcome' = "exception"
-             /\ UNCHANGED <<entry, byPath, opened, handle, remaining, faults>>
+             /\ UNCHANGED <<entry, byPath, opened, handle, remaining, faults, count, alloc, size>>
 Raise == /\ phase = "raising" /\ phase' = "done" /\ outcome' = "exception"
-         /\ UNCHANGED <<entry, byPath, opened, handle, remaining, faults>>
+         /\ UNCHANGED <<entry, byPath, opened, handle, remaining, faults, count, alloc, size>>
 
 Finished == phase = "done" /\ UNCHANGED vars        \* terminal stuttering
-Next == ParseArgs \/ Dispatch \/ DispatchFail \/ ParseStep \/ LoaderDone \/ LoaderRaise
+Next == ParseArgs \/ Dispatch \/ DispatchFail \/ HeaderOk \/ HeaderBad \/ ParseStep \/ LoaderDone \/ LoaderRaise
         \/ FinallyClose \/ PostOk \/ PostRaise \/ Raise \/ Finished
 Spec == Init /\ [][Next]_vars /\ WF_vars(Next)
 
 HandleClosedAtEnd == phase = "done" => (opened => handle = "closed")
 OutcomeOrdinary == phase = "done" => outcome \in {"return", "exception"}
 Terminates == <>(phase = "done")
+\* never more asked of the allocator than a fixed multiple of what the input holds
+MemFactor == 1
+MemoryProportional == alloc <= MemFactor * size * RecSize
 
 \* ------------------------------------------------------ part 2: fault sequences
 Fault == [op : {"truncate_at"}, f : 1..NFields]
@@ -92,11 +133,34 @@ Fault == [op : {"truncate_at"}, f : 1..NFields]
          \cup [op : {"splice"}, f : 1..NFields]
          \cup [op : {"drop"}, f : 1..NFields]
 FInit == /\ faults = <<>> /\ phase = "start" /\ entry = "load" /\ byPath = FALSE /\ opened = FALSE
-         /\ handle = "none" /\ remaining = 0 /\ outcome = "none"
+         /\ handle = "none" /\ remaining = 0 /\ outcome = "none" /\ count = 0 /\ alloc = 0 /\ size = 0
 FNext == /\ Len(faults) < MaxFaults
          /\ \E x \in Fault : faults' = Append(faults, x)
-         /\ UNCHANGED <<phase, entry, byPath, opened, handle, remaining, outcome>>
+         /\ UNCHANGED <<phase, entry, byPath, opened, handle, remaining, outcome, count, alloc, size>>
 EmitFaults == (Len(faults) >= 1) => PrintT(ToJson(faults))
+
+\* ------------------------------------------------------ part 3: value classes of a numeric field
+RECURSIVE V2(_)
+V2(s) == IF s % 2 = 1 THEN 0 ELSE 1 + V2(s \div 2)
+Widths == {8, 16, 32, 64}
+RecordSizes == {1, 2, 3, 4, 6, 8, 12, 16, 36, 50}       \* item sizes the loaders multiply counts by
+WrapPows == {w - V2(s) : w \in Widths, s \in RecordSizes}
+SignPows == {w - 1 : w \in Widths}
+Pows == WrapPows \cup SignPows \cup Widths \cup {53, 100}
+IntClass == [base : {"zero", "n"}, delta : {-1, 0, 1}, pow : {0} \cup Pows, mul : {1, 2, 3}, neg : BOOLEAN]
+CountClasses ==
+    {c \in IntClass : c.pow = 0 /\ c.mul = 1 /\ ~c.neg}                                   \* 0, 1, -1, n-1, n, n+1
+    \cup {c \in IntClass : c.base = "n" /\ c.delta = 0 /\ c.pow = 0 /\ c.mul > 1}          \* 2n, 3n, -2n, -3n
+    \cup {c \in IntClass : c.base = "zero" /\ c.delta \in {-1, 0} /\ c.pow > 0 /\ c.mul = 1 /\ ~c.neg}   \* 2^k - 1, 2^k
+    \cup {c \in IntClass : c.base = "n" /\ c.delta = 0 /\ c.pow > 0 /\ c.mul = 1 /\ ~c.neg}           \* n + 2^k
+    \cup {c \in IntClass : c.delta \in {0, 1} /\ c.pow \in SignPows /\ c.mul = 1 /\ c.neg}          \* -2^k, -2^k - 1, -(n + 2^k)
+    \cup {c \in IntClass : c.base = "n" /\ c.delta = 0 /\ c.pow = 0 /\ c.mul = 1 /\ c.neg}           \* -n
+RealClasses == {"nan", "inf", "neginf", "huge", "tiny", "negzero", "max", "broken", "hex", "long", "int", "empty"}
+StructClasses == {"delete", "null", "empty_list", "empty_dict", "string", "real", "true", "nested", "neg", "big"}
+\* the wrap class of the STL defect (uint32 count * 50-byte records) must be among them
+ASSUME [base |-> "n", delta |-> 0, pow |-> 31, mul |-> 1, neg |-> FALSE] \in CountClasses
+\* (state-level on purpose: TLC evaluates constant-level definitions, PrintT included, at start-up of every run)
+EmitClasses == (Len(faults) = 0) => PrintT(ToJson([ints |-> CountClasses, reals |-> RealClasses, structs |-> StructClasses]))
 
 Entries4 == {"load", "load_mesh", "load_scene", "load_path"}
 Classes4 == {"zero", "max", "negative", "random"}
